@@ -9,24 +9,39 @@ REPORT = re.compile(r"=\s*\(\s*(\d+)(?:%nat)?\s*,\s*\[([^\]]*)\]\s*\)", re.S)
 
 def eval_cases(name, header, ok_fun, case_terms, shard=400, timeout=900, ctype=None):
     """case_terms: list of Coq terms (strings).  Returns (n_evaluated,
-    [global indices of mismatches], [error logs])."""
+    [global indices of mismatches], [error logs]).  Cases are dealt to the
+    shards by decreasing size so that the shards take about equally long."""
+    n = len(case_terms)
+    if n == 0:
+        return 0, [], []
+    nshards = max(1, -(-n // shard))
+    total_len = sum(len(t) for t in case_terms)
+    nshards = max(nshards, min(12, total_len // 200000))   # spread heavy literals
+    order = sorted(range(n), key=lambda i: -len(case_terms[i]))
+    groups = [[] for _ in range(nshards)]
+    loads = [0] * nshards
+    for i in order:
+        j = loads.index(min(loads))
+        groups[j].append(i)
+        loads[j] += len(case_terms[i]) + 200
+    groups = [sorted(g) for g in groups if g]
     items = []
-    for s in range(0, len(case_terms), shard):
-        chunk = case_terms[s:s + shard]
-        text = header + "\nDefinition cases%s := [\n" % ((" : list (%s)" % ctype) if ctype else "") + ";\n".join(chunk) + "\n].\n" \
+    for gi, g in enumerate(groups):
+        text = header + "\nDefinition cases%s := [\n" % ((" : list (%s)" % ctype) if ctype else "") \
+            + ";\n".join(case_terms[i] for i in g) + "\n].\n" \
             + "Eval vm_compute in (report %s cases).\n" % ok_fun
-        items.append(("%s_%d" % (name, s), text))
+        items.append(("%s_%d" % (name, gi), text))
     res = coqtools.run_cases_parallel(items, timeout=timeout)
     total, bad, errs = 0, [], []
-    for (nm, rc, out), s in zip(res, range(0, len(case_terms), shard)):
+    for (nm, rc, out), g in zip(res, groups):
         m = REPORT.search(out)
         if rc != 0 or not m:
             errs.append("%s: rc=%s %s" % (nm, rc, out[-1500:]))
             continue
         total += int(m.group(1))
         idx = [int(x) for x in m.group(2).replace("%nat", "").split(";") if x.strip()]
-        bad += [s + i for i in idx]
-    return total, bad, errs
+        bad += [g[i] for i in idx]
+    return total, sorted(bad), errs
 
 
 def z(n):
